@@ -13,6 +13,14 @@
 (* replay case: program text, code bytes, the text the declarative layer defines (per code and   *)
 (* for the whole string), the impl-shaped prediction (m; o = the prediction with the repaired      *)
 (* defects switched on, used to name a regression) and the input class of every code.              *)
+(*                                                                                                *)
+(* Second dimension: every state carries one STYLE (CMap!sty, chosen in Init from Styles): the     *)
+(* separator written at every gap of one class, white space at one position inside hexadecimal    *)
+(* strings, a zero-entry section, further CMap dictionary entries, or the /Encoding form next to    *)
+(* /ToUnicode in the font dictionary.  Accepts = the impl-shaped grammar / get_font_encoding get to *)
+(* the CMap (switches Dev_gram: GramAsIs / GramRepaired); AcceptsExceptKnown asserts that a refused *)
+(* style is of a listed class.  Emitted with every case: f font form, s style, sc its class, ma     *)
+(* the impl-shaped prediction.                                                                    *)
 EXTENDS CMap, Json
 
 CONSTANTS Lens, NCodes, MaxDefs, Dev_h34, Dev_h35, Emit, KnownClasses, BaseVal, Rich,
